@@ -1,5 +1,5 @@
 (* C07 Serving is total: any request runs exactly one chain, never a routing panic. *)
-Require Import Base Regex Route Tree Router RouterProofs TreeIdx.
+Require Import Base Regex Route Tree Router RouterProofs TreeIdx SourceFacts.
 
 (* The model of ServeHTTP is a total function from (router state, method, path, headers) to exactly
    one outcome - the chosen route's chain or the not-found chain - for every byte string as path and
@@ -37,6 +37,23 @@ Proof. exact mnext_idx_refines. Qed.
    (it agrees with it on every generated request, including the hostile stream, and the implementation is run
    under recover()); type assertions and the regex engine are outside it. *)
 
+(* tie to the source, re-checked on every run against the regenerated gen/SourceFacts.v: the model has one method tree
+   per entry of router.go's httpMethods, and those are the nine standard tokens (in whatever order); any other
+   token is an unknown method *)
+Definition nine_methods : list str := [[71; 69; 84]%N; [80; 79; 83; 84]%N; [80; 85; 84]%N; [68; 69; 76; 69; 84; 69]%N; [80; 65; 84; 67; 72]%N; [79; 80; 84; 73; 79; 78; 83]%N; [72; 69; 65; 68]%N; [67; 79; 78; 78; 69; 67; 84]%N; [84; 82; 65; 67; 69]%N].
+Theorem C07_source_methods :
+  length src_http_methods = n_methods /\
+  (forall m, In m src_http_methods <-> In m nine_methods).
+Proof.
+  split; [reflexivity|].
+  assert (A : forallb (fun m => existsb (str_eqb m) nine_methods) src_http_methods = true) by reflexivity.
+  assert (B : forallb (fun m => existsb (str_eqb m) src_http_methods) nine_methods = true) by reflexivity.
+  rewrite forallb_forall in A, B. intros m. split; intros H.
+  - apply A in H. apply existsb_exists in H as (x & Hx & E). apply str_eqb_eq in E. subst x. exact Hx.
+  - apply B in H. apply existsb_exists in H as (x & Hx & E). apply str_eqb_eq in E. subst x. exact Hx.
+Qed.
+
 Redirect "assum/C07.1" Print Assumptions C07_one_outcome.
 Redirect "assum/C07.2" Print Assumptions C07_path_has_segments.
 Redirect "assum/C07.3" Print Assumptions C07_matcher_never_panics.
+Redirect "assum/C07.9" Print Assumptions C07_source_methods.
